@@ -1002,6 +1002,11 @@ class StubsLib(StubsBase):
                 r = StubsBase.cx_binop(self, op, x, y, ctx)
             elif np_semantics and isinstance(op, ast.Div):
                 return V.div(ctx, x, y)          # numpy: no ZeroDivisionError (inf/nan), guarded definition
+            elif np_semantics and isinstance(op, ast.Pow) and isinstance(y, int) and not isinstance(y, bool) and y < 0:
+                p_ = 1
+                for _ in range(-y):
+                    p_ = V.mul(p_, x)
+                return V.div(ctx, 1, p_)         # x ** -n = 1 / x**n with numpy semantics (no exception)
             else:
                 bx = isinstance(x, bool) or (is_sym(x) and z3.is_bool(x))
                 by = isinstance(y, bool) or (is_sym(y) and z3.is_bool(y))
